@@ -268,6 +268,21 @@ class _WFile:
         return iter(self._f)
 
 
+class _DetNames:
+    """Deterministic replacement for tempfile's random name sequence (a source of nondeterminism the code under
+    test may use, e.g. for atomic writes): names depend only on how many were drawn during this call."""
+
+    def __init__(self):
+        self.n = 0
+
+    def __iter__(self):
+        return self
+
+    def __next__(self):
+        self.n += 1
+        return f"sim{self.n:05d}"
+
+
 class Sim:
     """Interposer set for one call."""
 
@@ -426,6 +441,14 @@ class Sim:
 
     # -- install / uninstall
     def install(self):
+        import random as _random
+        import tempfile as _tempfile
+        self._saved_names = _tempfile._name_sequence
+        _tempfile._name_sequence = _DetNames()
+        self._saved_random = _random.getstate()
+        _random.seed(f"call:{self.key}")
+        self._saved_getpid = os.getpid
+        os.getpid = lambda: 4242
         os.scandir = self.scandir
         os.listdir = self.listdir
         builtins.open = self.open
@@ -437,6 +460,11 @@ class Sim:
         self._installed = True
 
     def uninstall(self):
+        import random as _random
+        import tempfile as _tempfile
+        _tempfile._name_sequence = self._saved_names
+        _random.setstate(self._saved_random)
+        os.getpid = self._saved_getpid
         os.scandir = _real["scandir"]
         os.listdir = _real["listdir"]
         builtins.open = _real["open"]
